@@ -95,6 +95,8 @@ macro_rules! fail_retained_vec_body {
             check!(v.len() == 2 && v.as_ptr() as usize == data, "C07: a failed try_reserve changed the length or moved the buffer");
             let (x, y) = if $rev { (vals[1], vals[0]) } else { (vals[0], vals[1]) };
             check!(v[0] == x && v[1] == y, "C07: a failed try_reserve changed the contents");
+            // before finalising (the library's own debug assertion would trip there): the arena is where it was
+            check!(addr(v.allocator_stats().current_chunk().unwrap().chunk_start()) == chunk0, "C07: a failed growth left the arena on another chunk");
             let b = v.into_boxed_slice();
             check!(b.len() == 2 && b[0] == x && b[1] == y, "C07/C15: finalised slice differs from the pushed elements after a failed growth");
             let p = b.as_ptr() as usize;
